@@ -64,6 +64,38 @@ def showV : Verdict → List String
   | .unknown => ["verdict", "unknown"]
   | .invalid => ["verdict", "invalid"]
 
+/-- session transcripts: what a hostile line must not do to others.
+ * a line from a parked pool leaves the relay between the miner and its active pool alone: nothing is
+   closed but (possibly) the parked connection itself, and the miner's next share is answered;
+ * the second connection of the process completes its handshake whatever the first one received. -/
+structure SSt where
+  active : String := "pa"
+  parkedHit : Bool := false
+
+def monS (st : SSt) (op : List String) (outs : List (List String)) : SSt × List String :=
+  match op with
+  | ["start"] => ({ active := "pa", parkedHit := false }, [])
+  | ["setdest", p, _] => if outs.any (· == ["session", "setdest-ret", "nil"]) then ({ st with active := p }, []) else (st, [])
+  | ["praw", p, _] =>
+    if p = st.active then (st, []) else
+    let bad := outs.filter fun o => match o with
+      | ["tominer", "closed"] => true
+      | "session" :: "run-exited" :: _ => true
+      | ["topool", pc, "closed"] => pc.startsWith (st.active ++ ".")
+      | _ => false
+    ({ st with parkedHit := true }, if bad.isEmpty then [] else [s!"PROP a line from the parked pool {p} disturbed the active relay: {bad}"])
+  | "submit" :: id :: _ =>
+    if st.parkedHit then
+      let answered := outs.any fun o => match o with | "tominer" :: "result" :: r => r.any (· == s!"id={id}") | _ => false
+      ({ st with parkedHit := false }, if answered then [] else [s!"PROP after a line from a parked pool the miner's share {id} for its active pool was not answered"])
+    else (st, [])
+  | ["p", "1", "res", "3", "ok"] =>
+    if outs.any (· == ["k1", "session", "connected"]) then (st, [])
+    else (st, ["PROP the second connection of the process did not complete its handshake"])
+  | _ => (st, [])
+
+def monitorS : Monitor := { σ := SSt, init := {}, step := monS }
+
 def mon (st : Unit) (op : List String) (outs : List (List String)) : Unit × List String :=
   match op with
   | ["parse", _] =>
